@@ -21,7 +21,26 @@ func CreateTemp(dir, pattern string) (*File, error) {
 	if err != nil {
 		return nil, err
 	}
+	created = append(created, f.Name())
 	return &File{f}, nil
+}
+
+// created: temporary files this process made through the shim.
+var created []string
+
+// Leftovers counts the temporary files created by this process (through
+// sonic/bytes) that still exist on disk. Other processes' files do not count.
+func Leftovers() int {
+	n := 0
+	kept := created[:0]
+	for _, name := range created {
+		if _, err := real.Stat(name); err == nil {
+			n++
+			kept = append(kept, name)
+		}
+	}
+	created = kept
+	return n
 }
 
 func (f *File) Truncate(size int64) error {
